@@ -41,6 +41,9 @@ func C16(e *Env) {
 
 	c10Amalgamated(e, "R10.4")
 	r.Rule("R10.4", "every other diagnostic is reported unchanged: the amalgamated validation step runs every sub-step and joins all their errors, so switching one validator off neither hides nor uncovers the diagnostics of the others (shared with C10)", 3)
+	c05Validator(e)
+	loopExitRule(e, "R05.3", outputRel, "a later dependency is never inspected, so its diagnostic disappears or depends on an unrelated defect", "ValidateServicesScopes", "Output.BuildDependencyGraph", "Service.AllArgs")
+	r.Rule("R05.3", "every other diagnostic is reported unchanged: the scope validator and the dependency graph visit every dependency whatever else is wrong with the configuration (no early loop exit on a missing name) (shared with C05/C07)", 6)
 	c16Flags(e)
 	c16Wiring(e)
 	c16Validators(e)
